@@ -305,6 +305,9 @@ LimitDom ==
   { [BaseSR EXCEPT !.reports = RBs(n)] : n \in {30, 31, 32, 33} \cup WrapCounts }
   \cup { [BaseRR EXCEPT !.reports = RBs(n)] : n \in {30, 31, 32, 33} \cup WrapCounts }
   \cup { [BaseSR EXCEPT !.reports = << [BaseRB EXCEPT !.lost = x] >>] : x \in LostVals }
+  \* a member beyond its limit inside a compound (the compound must fail as a whole, not be repaired)
+  \cup { [k |-> "CP", pkts |-> << [BaseRR EXCEPT !.reports = RBs(n)], BaseSDES >>] : n \in {31, 32, 40, 62, 63} }
+  \cup { [k |-> "CP", pkts |-> << BaseRR, BaseSDES, [k |-> "BYE", srcs |-> [i \in 1..n |-> << i, 9, 8, i >>], reason |-> << >>] >>] : n \in {31, 32, 33} }
   \cup { [BaseRR EXCEPT !.reports = << RBn(1), [BaseRB EXCEPT !.lost = x] >>] : x \in LostVals }
   \cup { [k |-> "SDES", chunks |-> [i \in 1..n |-> Chunk1(i % 256, << Item(1, 2) >>)]] : n \in {30, 31, 32} \cup WrapCounts }
   \cup { [k |-> "SDES", chunks |-> << Chunk1(1, << Item(1, n) >>) >>] : n \in TextLens }
@@ -556,7 +559,9 @@ OversizeDom ==
   \cup { [MkTWCC(1, << Rl(1, 1) >>, << Dl(1, 7) >>, FALSE) EXCEPT !.ref = << x, 1, 2, 3 >>] : x \in {1, 255} }
   \cup { MkXR(<< [XrB(b) EXCEPT !.t = t] >>) : b \in {"lrle", "prt"}, t \in {16, 37, 255} }
   \cup { MkXR(<< [XrB("ss") EXCEPT !.toh = t] >>) : t \in {4, 7, 255} }
-LooseDom == UnalignedDom \cup OversizeDom
+\* a metric block marked "not received" that nevertheless carries an ECN mark and an arrival offset in the caller's value
+StrayDom == { [BaseCCFB EXCEPT !.blocks = << CcBlock(D4(5), 1, << Mb(TRUE, 1, 2), Mb(FALSE, e, a), Mb(TRUE, 3, 4) >>) >>] : e \in {0, 2}, a \in {0, 77} }
+LooseDom == UnalignedDom \cup OversizeDom \cup StrayDom
 
 PairAll == DupDom \cup TextDom \cup SpecialDom \cup RelDom \cup PairXR \cup PairSR \cup PairRR \cup PairSDES \cup PairBYE \cup PairAPP \cup PairNACK \cup PairSLI \cup PairFIR \cup PairREMB \cup PairCCFB
 =============================================================================
